@@ -44,7 +44,7 @@ ASSUMPTIONS = [
 ]
 REQUIRED_LABELS = {"all": ["descending_pair", "second_target_mode0", "mixed_rep", "pure_rep", "thermal_loss_not_mode0",
                            "dagger", "param_zero", "param_pi_multiple", "backend:gaussian", "backend:bosonic", "backend:fock",
-                           "deleted_mode", "new_mode", "one_program_all_engines", "shared_operation_object", "tiny_squeezing"]}
+                           "deleted_mode", "new_mode", "one_program_all_engines", "shared_operation_object", "tiny_squeezing", "select_negative", "select_positive"]}
 
 ALPH_G = ["Dgate", "Sgate", "Rgate", "BSgate", "S2gate", "MZgate", "Xgate", "Zgate", "Pgate", "CXgate", "CZgate",
           "Fouriergate", "LossChannel", "Vacuum", "Coherent", "Squeezed", "DisplacedSqueezed", "Thermal"]
@@ -665,6 +665,67 @@ def check_bf(ctx, case):
     return None
 
 
+# ---------------------------------------------------------------------------------------------
+# post-selected homodyne measurement: an operation all three simulators share; the state it leaves on the OTHER modes
+# ---------------------------------------------------------------------------------------------
+@st.composite
+def psh_case(draw):
+    from vf.props.c05 import entangling_prior
+
+    n = draw(st.integers(2, 3))
+    hbar = draw(st.sampled_from([2.0, 2.0, 1.0, 0.5]))
+    prior = [o for o in draw(entangling_prior(n, "fock")) if o[0] != "Thermal"]
+    for o in prior:  # energies for which cutoff 10 holds the state (same bounds as C06 fock_homodyne)
+        if o[0] in ("Sgate", "Squeezed", "S2gate"):
+            o[1][0] = float(np.clip(o[1][0], -0.25, 0.25))
+        if o[0] == "Dgate":
+            o[1][0] = min(o[1][0], 0.4)
+    sel = draw(st.one_of(gen.fl(-0.8, 0.8), gen.fl(-0.8, -0.1), st.just(0.0)))  # in units of the vacuum standard deviation at hbar = 2
+    post = draw(gen.op_list(n, ["Rgate", "BSgate", "Rgate"], "fock", 0, 2))
+    return {"n": n, "hbar": hbar, "prior": prior, "mode": draw(st.integers(0, n - 1)), "phi": draw(gen.angle()), "select": sel * float(np.sqrt(hbar / 2)),
+            "post": post, "pure": draw(st.booleans())}
+
+
+def check_psh(ctx, case):
+    n, hbar, m, phi, sel = case["n"], case["hbar"], case["mode"], case["phi"], case["select"]
+    program_ = case["prior"] + [["MeasureHomodyne", [phi], [m], {"select": sel}]] + case["post"]
+    ref = spec.ref_run(n, case["prior"], hbar)
+    fock_ok = tail_weight(ref, 10) < 1e-6
+    ref.condition_homodyne(phi, sel, m)
+    spec.ref_run(n, case["post"], hbar, ref)
+    sc = hbar / 2
+    labels = ["op:MeasureHomodyne", "select_negative" if sel < 0 else "select_zero" if sel == 0 else "select_positive", "hbar:%g" % hbar]
+    got = {}
+    for be in ("gaussian", "bosonic", "fock"):
+        if be == "fock" and not fock_ok:
+            labels.append("truncation_dominated")
+            continue
+        try:
+            res = sfrun.run(be, n, program_, hbar, 10, case["pure"])
+        except sfrun.Rejected:
+            labels.append("rejected:" + be)
+            continue
+        except Exception as exc:  # pylint: disable=broad-except
+            ctx.note(case, True, labels)
+            return ctx.crash(exc, be + ".MeasureHomodyne")
+        if be == "fock":
+            rho = fockref.state_dm(res.state)
+            got[be] = fockref.moments(rho, n, hbar)
+            labels.append("pure_rep" if res.state.is_pure else "mixed_rep")
+        else:
+            got[be] = sfrun.moments_of(res.state, be, hbar)[:2]
+        labels.append("backend:" + be)
+    ctx.note(case, nontrivial=len(got) >= 2, labels=labels)
+    for be, (mu, V) in got.items():
+        # phase space: the gaussian / bosonic POVM is a finitely squeezed one (2e-5); fock: truncation at 10 (5e-3, as C06 fock_homodyne)
+        tol = (5e-3 if be == "fock" else 2e-5) * (1 + float(np.max(np.abs(ref.V))) / sc)
+        dm, dv = float(np.max(np.abs(mu - ref.mu))) / np.sqrt(sc), float(np.max(np.abs(V - ref.V))) / sc
+        if dm > tol or dv > tol:
+            return ctx.fail("postselected_homodyne.%s_vs_ref" % be, "state after MeasureHomodyne(%.3f, select=%.4f) | q[%d] on %s differs from the conditional state of the "
+                            "reference: |dmu|=%.3g |dV|=%.3g (tol %.2g, hbar %g)" % (phi, sel, m, be, dm, dv, tol, hbar))
+    return None
+
+
 SUBS = [
     Sub("ps_vs_ref", check=check_ps, strategy=lambda ctx: ps_case(), examples={"quick": 500, "thorough": 5000},
         shards={"quick": 2, "thorough": 16}, rule="gaussian + bosonic backends vs refsim on 1..4 modes, registers with Del / New"),
@@ -676,6 +737,9 @@ SUBS = [
         shards={"quick": 1, "thorough": 4}, rule="MZgate.H / MZgate(0, x) natively on fock vs refsim"),
     Sub("bosonic_vs_fock", check=check_bf, strategy=lambda ctx: bf_case(), examples={"quick": 80, "thorough": 400},
         shards={"quick": 1, "thorough": 8}, rule="Fock/cat/GKP preparations in any mode order + Gaussian gates: bosonic vs fock moments"),
+    Sub("postselected_homodyne", check=check_psh, strategy=lambda ctx: psh_case(), examples={"quick": 60, "thorough": 600},
+        shards={"quick": 2, "thorough": 8}, rule="entangled 2..3 mode Gaussian state, MeasureHomodyne(phi, select of either sign) on one mode, 0..2 further gates: "
+                                                 "gaussian, bosonic and fock (pure / mixed) vs the conditional state of refsim"),
 ]
 
 MANIFEST = {
